@@ -1,11 +1,16 @@
 #!/bin/sh
-# usage: tools/eval_seeds.sh <seed names...>   (runs each seed's own property check, quick tier) -> seeded/RESULTS.txt lines
+# usage: tools/eval_seeds.sh <seed names...>
+# Runs each seed's own property check (quick tier) against a scratch worktree of /repo with the seeded
+# change applied (VERIF_REPO), leaving /repo untouched.  Registered checks always use /repo itself.
 cd /verif
 for s in "$@"; do
   pid=$(echo $s | cut -d_ -f1)
   [ -f checks/$pid.py ] || { echo "$s: no check for $pid"; continue; }
-  out=$(tools/run_seed.sh seeded/$s $pid --tier quick 2>&1)
+  W=/tmp/wt_eval_$s
+  git -C /repo worktree add -q $W HEAD && git -C $W apply /verif/seeded/$s/patch.diff
+  out=$(VERIF_REPO=$W PYTHONPATH=$W /verif/.venv/bin/python checks/$pid.py --tier ${TIER:-quick} 2>&1)
+  git -C /repo worktree remove --force $W
   rc=$(echo "$out" | grep -o "exit=[0-9]*" | tail -1)
   echo "=== $s $rc"
-  echo "$out" | grep -E "VIOLATION|INCONCLUSIVE" | head -4
+  echo "$out" | grep -E "VIOLATION|INCONCLUSIVE" | cut -c1-250 | head -4
 done
